@@ -12,12 +12,13 @@ LEVEL = "exploration"
 N_QUICK, N_THOROUGH = 8000, 300000
 T_QUICK, T_THOROUGH = 70, 1500
 OPS = ["set-scalar", "set-string", "set-array", "set-array-element", "set-nested", "set-ref-same", "set-ref-other",
-       "copy", "move", "move-refused-nested", "move-refused-refs", "write-through-shared", "ref-to-nested-part-then-rebind"]
+       "copy", "move", "move-refused-nested", "move-refused-refs", "write-through-shared", "ref-to-nested-part-then-rebind", "set-ref-null-then-same"]
 FLOORS = {"histories": 1500, "steps": 15000, "object_comparisons": 60000, "renamed_fields_compared": 5000,
           "growths": 300, "three_level_families": 300, "nested_copy_duplicated_referent": 40,
           "copy_duplicated_referent": 60}
 FLOORS.update({"op:" + o: 250 for o in OPS})
 FLOORS["op:ref-to-nested-part-then-rebind"] = 60
+FLOORS["op:set-ref-null-then-same"] = 150
 RULE = ("generated hybrid class families (2-3 levels: scalars, strings, numeric arrays of any shape, nested hybrids, "
         "references to hybrids, renamed fields) in two buffers; histories of <=20 steps over {set scalar/string/array/"
         "array element (also inside nested dressed parts), assign dressed object to a nested field (same/other buffer), "
@@ -245,6 +246,35 @@ def _step(w, rng, vg, op, tracked, envs, specs, outer, new_obj, hist, viol):
                 viol("cross-buffer-reference-accepted", "assigning an object of another buffer to a reference field did not raise")
             except MemoryError:
                 pass
+        return True
+    if op == "set-ref-null-then-same":
+        # X, then null (None or a bare xobject of another target), then X again: the buffer must follow each time
+        pick = _pick_sub(rng, tracked, lambda s: bool(fields_of(s, "ref")))
+        if pick is None:
+            return False
+        t, pp, xp, spec, mv, obj = pick
+        xn, pn, _, sub, _d = rng.choice(fields_of(spec, "ref"))
+        cand = [x for x in tracked.values() if x.spec is sub and not x.dead and x.obj is not None and x.obj._buffer is obj._buffer]
+        X = rng.choice(cand) if cand and rng.random() < 0.5 else new_obj(sub, t.env, buf=obj._buffer)
+        setattr(obj, pn, X.obj)
+        X.referenced = True
+        if rng.random() < 0.5:
+            setattr(obj, pn, None)
+            mid = "None"
+        else:
+            other = new_obj(sub, t.env, buf=obj._buffer)
+            setattr(obj, pn, other.obj._xobject)  # the bare xobject of another target
+            other.referenced = True
+            mid = f"bare xobject of #{other.i}"
+        xr = getattr(obj._xobject, xn)
+        if mid == "None" and xr is not None:
+            viol("reference-not-nulled-in-buffer", f"{pn}")
+        setattr(obj, pn, X.obj)
+        _set_model(t, xp, xn, X.i)
+        xr = getattr(obj._xobject, xn)
+        if xr is None or int(xr._offset) != int(X.obj._xobject._offset):
+            viol("reference-in-buffer-does-not-follow-reassignment", f"{pn}: X, {mid}, X again -> buffer refers to {xr!r}")
+        hist.append([op, f"#{t.i}." + ".".join(pp + [pn]), f"#{X.i}, {mid}, #{X.i}"])
         return True
     if op == "ref-to-nested-part-then-rebind":
         # a nested part of one object becomes, for a while, the target of a reference field of another object; when
